@@ -122,7 +122,7 @@ def sites_of(db, fn, include_overflow=False, tm=None):
         if kind == "unwrap":
             oterm = receiver_origin(db, body, tm, extra)
             if oterm is not None:
-                origin = oterm[3] or oterm[1]
+                origin = oterm[3] if (oterm[3] or "").startswith("<") else oterm[1]
         stub = "%s@%s" % (kind, origin or what)
         n = counter[stub]
         counter[stub] += 1
